@@ -7,24 +7,22 @@ From EvyV Require Bytecode SymTab Vm VmProofs Compile CompileSem CompileStmtProo
 Require EvyV.Gen.Opcodes.
 Import ListNotations.
 
-Module C := Compile.
-Module CS := CompileSem.
 
 Theorem vm_equals_evaluator_model_partial :
-  forall (P : program) (p : C.slist) (st : C.cstate) (fuel : nat) (env' : CS.senv) input ff ay,
+  forall (P : program) (p : Compile.slist) (st : Compile.cstate) (fuel : nat) (env' : CompileSem.senv) input ff ay,
   tfrag_l p = true -> lrel p (p_stmts P) ->
-  CS.lpfrag p = true -> C.compile p = C.COk st ->
-  CS.lx_l fuel p [[]] = Some (env', false) ->
-  (SymTab.st_local_count (C.csym st) + CS.ldepth p <= Gen.Opcodes.StackSize)%N ->
-  let prog := C.program_of (C.bytecode_of st) in
+  CompileSem.lpfrag p = true -> Compile.compile p = Compile.COk st ->
+  CompileSem.lx_l fuel p [[]] = Some (env', false) ->
+  (SymTab.st_local_count (Compile.csym st) + CompileSem.ldepth p <= Gen.Opcodes.StackSize)%N ->
+  let prog := Compile.program_of (Compile.bytecode_of st) in
   exists sv N s1,
     CompileStmtProofs.reaches prog (Vm.vm_init prog) sv /\ Vm.vm_step prog sv = Vm.Halted sv /\
     Vm.ostack sv = [] /\
     (forall n, (N <= n)%nat -> run_program n P (init_state None input ff ay) = (ODone, s1)) /\
     st_trace s1 = [] /\
-    forall n y v, SymTab.st_resolve n (C.csym st) = Some y -> CS.slook n env' = Some v ->
+    forall n y v, SymTab.st_resolve n (Compile.csym st) = Some y -> CompileSem.slook n env' = Some v ->
                   nth_error (Vm.globals sv) (N.to_nat (SymTab.sidx y)) = Some v /\
-                  sem_global s1 n = Some v.
+                  sem_global s1 n v.
 Proof.
   intros P p st fuel env' input ff ay Ft Rl Fl Hc Hx Hd prog.
   destruct (CompileLocProofs.compile_correct_locals p st fuel env' Fl Hc Hx Hd) as (sv & Hr & Hh & Ho & Hg).
@@ -36,20 +34,20 @@ Qed.
 
 (* with the canonical translation of the program *)
 Corollary vm_equals_evaluator_model_tr_partial :
-  forall (p : C.slist) (st : C.cstate) (fuel : nat) (env' : CS.senv) input ff ay,
-  tfrag_l p = true -> CS.lpfrag p = true -> C.compile p = C.COk st ->
-  CS.lx_l fuel p [[]] = Some (env', false) ->
-  (SymTab.st_local_count (C.csym st) + CS.ldepth p <= Gen.Opcodes.StackSize)%N ->
-  let prog := C.program_of (C.bytecode_of st) in
+  forall (p : Compile.slist) (st : Compile.cstate) (fuel : nat) (env' : CompileSem.senv) input ff ay,
+  tfrag_l p = true -> CompileSem.lpfrag p = true -> Compile.compile p = Compile.COk st ->
+  CompileSem.lx_l fuel p [[]] = Some (env', false) ->
+  (SymTab.st_local_count (Compile.csym st) + CompileSem.ldepth p <= Gen.Opcodes.StackSize)%N ->
+  let prog := Compile.program_of (Compile.bytecode_of st) in
   let P := {| p_funcs := []; p_handlers := []; p_stmts := tr_l p |} in
   exists sv N s1,
     CompileStmtProofs.reaches prog (Vm.vm_init prog) sv /\ Vm.vm_step prog sv = Vm.Halted sv /\
     Vm.ostack sv = [] /\
     (forall n, (N <= n)%nat -> run_program n P (init_state None input ff ay) = (ODone, s1)) /\
     st_trace s1 = [] /\
-    forall n y v, SymTab.st_resolve n (C.csym st) = Some y -> CS.slook n env' = Some v ->
+    forall n y v, SymTab.st_resolve n (Compile.csym st) = Some y -> CompileSem.slook n env' = Some v ->
                   nth_error (Vm.globals sv) (N.to_nat (SymTab.sidx y)) = Some v /\
-                  sem_global s1 n = Some v.
+                  sem_global s1 n v.
 Proof.
   intros p st fuel env' input ff ay Ft Fl Hc Hx Hd prog P.
   apply (vm_equals_evaluator_model_partial P p st fuel env' input ff ay Ft); auto.
